@@ -86,7 +86,7 @@ theorem resolveLoc_fst (fs : Fs) (l : Loc) :
   | none =>
     rcases hi : l.index with _ | ⟨d, gs⟩
     · simp [h]
-    · cases hd : fs.isDir d <;> simp [List.find?_append, h, firstFile_fst]
+    · cases hd : fs.isDir d <;> simp [h, hd, firstFile_fst]
 
 theorem resolveLocs_fst (fs : Fs) (ls : List Loc) :
     (resolveLocs fs ls).1 = (ls.flatMap (Loc.eligible fs)).find? fs.isFile := by
@@ -111,15 +111,14 @@ theorem eligible_find (fs : Fs) (hc : fs.coherent) (l : Loc) (hw : l.wf) :
   rcases hi : l.index with _ | ⟨d, gs⟩
   · rfl
   · cases hd : fs.isDir d
-    · simp only [Bool.false_eq_true, if_false, List.append_nil, List.find?_append]
-      have : gs.flatten.find? fs.isFile = none := by
+    · have : gs.flatten.find? fs.isFile = none := by
         rw [List.find?_eq_none]
         intro p hp hf
         obtain ⟨n, rfl⟩ := hw d gs hi p hp
         have := hc d n hf
         simp [hd] at this
-      simp [this]
-    · simp
+      simp [hd, List.find?_append, this]
+    · simp [hd]
 
 theorem flatMap_find_congr {α β} (p : β → Bool) (f g : α → List β) (ls : List α)
     (h : ∀ l ∈ ls, (f l).find? p = (g l).find? p) :
@@ -209,6 +208,27 @@ theorem C13_locations_layout (importer url : Path) (lps : List Path) (fi : Bool)
         lps.flatMap (fun lp => (locFor .spec fi lp url).filePaths) := by
   simp [fileCandidates, locations, AsFound.spec, wantsImportOnly, List.flatMap_cons, List.flatMap_map]
 
+theorem tryPath_shape (D : Path) (m : Comp) : ∀ p ∈ tryPath D m, ∃ k, p = D ++ [k] := by
+  intro p hp
+  simp only [tryPath, List.mem_cons, List.mem_nil_iff, or_false] at hp
+  rcases hp with rfl | rfl <;> exact ⟨_, rfl⟩
+
+theorem extGroups_shape (af : AsFound) (D : Path) (n : Comp) :
+    ∀ p ∈ (extGroups af D n).flatten, ∃ k, p = D ++ [k] := by
+  intro p hp
+  simp only [extGroups, List.flatten_cons, List.flatten_nil, List.append_nil, List.mem_append] at hp
+  rcases hp with (h | h) | h <;> exact tryPath_shape _ _ p h
+
+theorem withExtensions_shape (af : AsFound) (imp : Bool) (D : Path) (n : Comp) :
+    ∀ p ∈ (withExtensions af imp D n).flatten, ∃ k, p = D ++ [k] := by
+  intro p hp
+  simp only [withExtensions, List.flatten_append, List.mem_append] at hp
+  rcases hp with h | h
+  · cases imp
+    · simp at h
+    · exact extGroups_shape _ _ _ p h
+  · exact extGroups_shape _ _ _ p h
+
 theorem locFor_wf (af : AsFound) (imp : Bool) (root url : Path) : (locFor af imp root url).wf := by
   intro d gs hi p hp
   unfold locFor at hi
@@ -218,10 +238,7 @@ theorem locFor_wf (af : AsFound) (imp : Bool) (root url : Path) : (locFor af imp
     rcases hx : explicitExt base with _ | ⟨stem, ext⟩
     · simp only [hx, Option.some.injEq, Prod.mk.injEq] at hi
       obtain ⟨rfl, rfl⟩ := hi
-      cases imp <;>
-        simp [withExtensions, extGroups, tryPath] at hp <;>
-        (rcases hp with h | h | h | h | h | h | h | h | h | h | h | h <;> exact ⟨_, h⟩) <;> skip
-      all_goals (rcases hp with h | h | h | h | h | h <;> exact ⟨_, h⟩)
+      exact withExtensions_shape _ _ _ _ p hp
     · simp [hx] at hi
 
 theorem locations_wf (af : AsFound) (importer url : Path) (lps : List Path) (fi : Bool) :
@@ -229,9 +246,9 @@ theorem locations_wf (af : AsFound) (importer url : Path) (lps : List Path) (fi 
   intro l hl
   unfold locations at hl
   split at hl
-  · simp at hl; subst hl; exact locFor_wf ..
+  · simp at hl; subst hl; exact locFor_wf _ _ _ _
   · simp at hl
-    rcases hl with rfl | ⟨lp, _, rfl⟩ <;> exact locFor_wf ..
+    rcases hl with rfl | ⟨lp, _, rfl⟩ <;> exact locFor_wf _ _ _ _
 
 /-! ### the property theorems -/
 
@@ -350,7 +367,7 @@ theorem resolveLoc_layout (fs : Fs) (hc : fs.coherent) (imp : Bool) (root udir :
     (hx : explicitExt base = none) :
     (resolveLoc fs (locFor .spec imp root (udir ++ [base]))).1 =
       (namedOf imp (root ++ udir) base ++ namedOf imp (root ++ udir ++ [base]) indexName).find? fs.isFile := by
-  rw [resolveLoc_fst, eligible_find fs hc _ (locFor_wf ..), C13_location_layout imp root udir base hx]
+  rw [resolveLoc_fst, eligible_find fs hc _ (locFor_wf _ _ _ _), C13_location_layout imp root udir base hx]
 
 /-- **file_before_index**: if any of the named files of `base` exists in a location, the result
     for that location is one of them, never an index file. -/
@@ -467,43 +484,64 @@ theorem C13_basename_dots_kept (imp : Bool) (dir : Path) (base : Comp) :
     ∀ p ∈ namedOf imp dir base, ∃ sfx ∈ importOnlySuffixes ++ plainSuffixes,
       p = dir ++ [base ++ '.' :: sfx] ∨ p = dir ++ [('_' :: (base ++ '.' :: sfx))] := by
   intro p hp
-  cases imp <;>
-    simp [namedOf, sassScssOf, cssOf, importOnlySuffixes, plainSuffixes, List.append_assoc] at hp ⊢ <;>
-    rcases hp with h | h | h | h | h | h | h | h | h | h | h | h <;> simp [h]
+  cases imp
+  · simp only [namedOf, sassScssOf, cssOf, Bool.false_eq_true, if_false, List.nil_append,
+      List.cons_append, List.mem_cons, List.mem_nil_iff, or_false] at hp
+    rcases hp with h | h | h | h | h | h <;> subst h <;>
+      simp [importOnlySuffixes, plainSuffixes, sassExt, scssExt, cssExt, importWord]
+  · simp only [namedOf, sassScssOf, cssOf, if_true, List.nil_append, List.append_assoc,
+      List.cons_append, List.mem_cons, List.mem_nil_iff, or_false] at hp
+    rcases hp with h | h | h | h | h | h | h | h | h | h | h | h <;> subst h <;>
+      simp [importOnlySuffixes, plainSuffixes, sassExt, scssExt, cssExt, importWord]
 
 example : addExt .spec ['f', 'o', 'o', '.', 'b', 'a', 'r'] scssExt =
     ['f', 'o', 'o', '.', 'b', 'a', 'r', '.', 's', 'c', 's', 's'] := by decide
 
 /-! ### confinement -/
 
+theorem mem_probes_file (l : Loc) (p : Path) (h : p ∈ l.files) : Probe.isFile p ∈ l.probes := by
+  unfold Loc.probes
+  exact List.mem_append_left _ (List.mem_map.mpr ⟨p, h, rfl⟩)
+
+theorem mem_probes_dir (l : Loc) (d : Path) (gs : List (List Path)) (hi : l.index = some (d, gs)) :
+    Probe.isDir d ∈ l.probes := by
+  unfold Loc.probes
+  rw [hi]
+  exact List.mem_append_right _ (List.mem_cons_self ..)
+
+theorem mem_probes_index (l : Loc) (d : Path) (gs : List (List Path)) (hi : l.index = some (d, gs))
+    (p : Path) (hp : p ∈ gs.flatten) : Probe.isFile p ∈ l.probes := by
+  unfold Loc.probes
+  rw [hi]
+  exact List.mem_append_right _ (List.mem_cons_of_mem _ (List.mem_map.mpr ⟨p, hp, rfl⟩))
+
 theorem resolveLoc_calls (fs : Fs) (l : Loc) : ∀ c ∈ (resolveLoc fs l).2, c ∈ l.probes := by
   intro c hc
   unfold resolveLoc at hc
-  unfold Loc.probes
   have hf := firstFile_calls fs l.files
   cases h1 : (firstFile fs l.files).1 with
   | some p =>
     simp only [h1] at hc
     obtain ⟨q, hq, rfl⟩ := hf c hc
-    simp [hq]
+    exact mem_probes_file l q hq
   | none =>
     simp only [h1] at hc
     rcases hi : l.index with _ | ⟨d, gs⟩
     · simp only [hi] at hc
       obtain ⟨q, hq, rfl⟩ := hf c hc
-      simp [hq]
+      exact mem_probes_file l q hq
     · simp only [hi] at hc
       cases hd : fs.isDir d
       · simp only [hd, Bool.false_eq_true, if_false, List.mem_append, List.mem_singleton] at hc
         rcases hc with hc | rfl
-        · obtain ⟨q, hq, rfl⟩ := hf c hc; simp [hq]
-        · simp
+        · obtain ⟨q, hq, rfl⟩ := hf c hc; exact mem_probes_file l q hq
+        · exact mem_probes_dir l d gs hi
       · simp only [hd, if_true, List.mem_append, List.mem_cons] at hc
         rcases hc with hc | rfl | hc
-        · obtain ⟨q, hq, rfl⟩ := hf c hc; simp [hq]
-        · simp
+        · obtain ⟨q, hq, rfl⟩ := hf c hc; exact mem_probes_file l q hq
+        · exact mem_probes_dir l d gs hi
         · obtain ⟨q, hq, rfl⟩ := firstFile_calls fs gs.flatten c hc
-          simp [hq]
+          exact mem_probes_index l d gs hi q hq
 
 theorem resolveLocs_calls (fs : Fs) (ls : List Loc) :
     ∀ c ∈ (resolveLocs fs ls).2, c ∈ ls.flatMap Loc.probes := by
@@ -537,7 +575,7 @@ theorem C13_confinement_reads (af : AsFound) (fs : Fs) (importer url : Path) (lp
          | some p => [.read p]
          | none => []) := by
   unfold load trace resolve
-  cases (resolveLocs fs (locations af importer url lps fi)).1 <;> simp
+  cases h : (resolveLocs fs (locations af importer url lps fi)).1 <;> simp [h]
 
 example : (load .spec (fsOf [[['_', 'a', '.', 's', 'a', 's', 's']]] []) [['m']] [['a']] [] false).2 =
     [.probe (.isFile [['a', '.', 's', 'a', 's', 's']]), .probe (.isFile [['_', 'a', '.', 's', 'a', 's', 's']]),
@@ -562,13 +600,13 @@ theorem resolveLoc_congr (fs fs' : Fs) (l : Loc) (h : ∀ c ∈ l.probes, agreeO
     resolveLoc fs l = resolveLoc fs' l := by
   unfold resolveLoc
   have h1 : firstFile fs l.files = firstFile fs' l.files :=
-    firstFile_congr fs fs' _ (fun p hp => h (.isFile p) (by simp [Loc.probes, hp]))
+    firstFile_congr fs fs' _ (fun p hp => h (.isFile p) (mem_probes_file l p hp))
   rw [h1]
   rcases hi : l.index with _ | ⟨d, gs⟩
   · rfl
-  · have h2 : fs.isDir d = fs'.isDir d := h (.isDir d) (by simp [Loc.probes, hi])
+  · have h2 : fs.isDir d = fs'.isDir d := h (.isDir d) (mem_probes_dir l d gs hi)
     have h3 : firstFile fs gs.flatten = firstFile fs' gs.flatten :=
-      firstFile_congr fs fs' _ (fun p hp => h (.isFile p) (by simp [Loc.probes, hi, hp]))
+      firstFile_congr fs fs' _ (fun p hp => h (.isFile p) (mem_probes_index l d gs hi p hp))
     simp only [h2, h3]
 
 theorem resolveLocs_congr (fs fs' : Fs) (ls : List Loc)
@@ -633,7 +671,10 @@ theorem docLoc_found (fs : Fs) (l : Loc) (p : Path) (h : docLoc fs l = .found p)
     · simp only [hi] at h
       cases hd : fs.isDir d
       · simp [hd] at h
-      · simp only [hd, if_true] at h; simp [docGroups_found fs _ _ h]
+      · simp only [hd, if_true] at h
+        have e := docGroups_found fs _ _ h
+        show none.or (List.find? fs.isFile (if fs.isDir d = true then gs.flatten else [])) = some p
+        rw [hd, if_pos rfl, e]; rfl
 
 theorem docLoc_none (fs : Fs) (l : Loc) (h : docLoc fs l = .none) : (resolveLoc fs l).1 = none := by
   rw [resolveLoc_fst]; unfold Loc.eligible Loc.files
@@ -649,8 +690,12 @@ theorem docLoc_none (fs : Fs) (l : Loc) (h : docLoc fs l = .none) : (resolveLoc 
     · simp
     · simp only [hi] at h
       cases hd : fs.isDir d
-      · simp
-      · simp only [hd, if_true] at h; simp [docGroups_none fs _ h]
+      · show none.or (List.find? fs.isFile (if fs.isDir d = true then gs.flatten else [])) = none
+        rw [hd, if_neg (by simp)]; rfl
+      · simp only [hd, if_true] at h
+        have e := docGroups_none fs _ h
+        show none.or (List.find? fs.isFile (if fs.isDir d = true then gs.flatten else [])) = none
+        rw [hd, if_pos rfl, e]; rfl
 
 theorem docLocs_sound (fs : Fs) (ls : List Loc) :
     (∀ p, docLocs fs ls = .found p → (resolveLocs fs ls).1 = some p) ∧
@@ -716,7 +761,7 @@ theorem C13_syntax_of_candidate (dir : Path) (n : Comp) (hn : n ≠ []) :
   have e : n.isEmpty = false := by cases n <;> simp_all
   refine ⟨?_, ?_, ?_⟩ <;>
     simp only [syntaxFor, splitLast_append, syntaxForName, stemExt] <;>
-    rw [splitLastDot_append n _ (by decide)] <;> simp only [e] <;> decide
+    rw [splitLastDot_append n _ (by decide)] <;> simp only [e, Bool.false_eq_true, if_false] <;> rfl
 
 /-! ### plain-CSS imports -/
 
@@ -748,7 +793,7 @@ theorem C13_plain_css_short_urls (url : List Char) (hd : documentedPlainUrl url 
     | [a], _ => simp [endsWith, dotCss] at h
     | [a, b], _ => simp [endsWith, dotCss] at h
     | [a, b, c], _ => simp [endsWith, dotCss] at h
-    | [a, b, c, d], _ => simp [endsWith, dotCss] at h; simp [dotCss, h]
+    | [a, b, c, d], _ => simp [endsWith, dotCss] at h; obtain ⟨rfl, rfl, rfl, rfl⟩ := h; rfl
     | _ :: _ :: _ :: _ :: _ :: _, hlen => simp at hlen; omega
   · exfalso
     have := List.IsPrefix.length_le (List.isPrefixOf_iff_prefix.mp h)
@@ -796,7 +841,7 @@ theorem C13_asFound_same_for_plain_import (importer url : Path) (lps : List Path
     · rfl
     · simp only [urlExplicit, hs] at hx
       cases he : explicitExt base with
-      | none => rfl
+      | none => simp [he, withExtensions, extGroups, addExt]
       | some x => simp [he] at hx
   simp [this]
 
